@@ -87,6 +87,7 @@ PAYLOAD_TRANSPARENT = (
 
 
 # combinators that transform the payload of an Option/Result with a closure (modelled at payload level, like `?`)
+MAP_OR_LIKE = ("core::option::Option::<T>::map_or", "core::result::Result::<T, E>::map_or")
 MAP_LIKE = (
     "core::result::Result::<T, E>::map", "core::option::Option::<T>::map",
     "core::result::Result::<T, E>::and_then", "core::option::Option::<T>::and_then",
@@ -452,6 +453,7 @@ class FnAnalysis:
         self.havoc_src = {}   # atom ('v', name) -> set of terms assigned to it
         self.params = {}      # name -> var id
         self.param_names = []
+        self.read_filled = {}
         self.var_names = {}
         self.var_types = {}
         self.closure_depth = 0
@@ -1282,6 +1284,13 @@ class FnAnalysis:
             z = st.fork()
             self.ev(z, "loop", e, what="skip", lid=lid)
             outs.append((z, ("unit",)))
+        if cond is not None:
+            # a `while` whose condition is false at once: the state is exactly the one before the loop (nothing is havoc'd)
+            for sc, o in self.cond_paths(cond, st.fork()):
+                if o or sc.ctrl is not None:
+                    continue
+                self.ev(sc, "loop", e, what="skip", lid=lid)
+                outs.append((sc, ("unit",)))
         s = st
         self.ev(s, "loop", e, what="enter", lid=lid, iter=iter_term)
         # havoc
@@ -1304,10 +1313,8 @@ class FnAnalysis:
             for sc, o in self.cond_paths(cond, s):
                 if o:
                     starts.append(sc)
-                else:
-                    sc.loops = sc.loops[:-1]
-                    self.ev(sc, "loop", e, what="exit", lid=lid)
-                    outs.append((sc, ("unit",)))
+                # (condition false on the havoc'd state = the loop is left after k ≥ 1 iterations: that exit is produced below, from the state the
+                #  last iteration left behind; k = 0 was produced above from the exact entry state)
         for s0 in starts:
             if pre_bind is not None:
                 pre_bind(s0)
@@ -1319,6 +1326,18 @@ class FnAnalysis:
                         self.havoc_src.setdefault(atom, set()).add(s2.env[var])
                 if s2.ctrl == "ret":
                     continue   # returned out of an inlined callee from inside the loop: already recorded
+                if cond is not None and (s2.ctrl or "end") in ("end", "continue"):
+                    # a `while` is left only when its condition is found false: evaluate it on the state this iteration produced (the outcome
+                    # "true" goes round again, which the havoc'd start state already covers)
+                    how = s2.ctrl or "end"
+                    s2.ctrl = None
+                    for sc, o in self.cond_paths(cond, s2):
+                        if o or sc.ctrl is not None:
+                            continue
+                        sc.loops = sc.loops[:-1]
+                        self.ev(sc, "loop", e, what="exit", lid=lid, how=how)
+                        outs.append((sc, ("unit",)))
+                    continue
                 s2.loops = s2.loops[:-1]
                 how = s2.ctrl or "end"
                 s2.ctrl = None
@@ -1509,7 +1528,25 @@ class FnAnalysis:
                         if s3.ctrl is None:
                             outs.append((s3, v3))
                     continue
-            if fn.endswith("Iterator::find") and len(vals) == 2 and isinstance(vals[1], tuple) and vals[1] and vals[1][0] == "clos":
+            if fn in MAP_LIKE and len(vals) == 2 and isinstance(vals[1], tuple) and vals[1] and vals[1][0] == "call" and not vals[1][2] and vals[1][3] is None \
+                    and self.facts.fn(vals[1][1]) is not None and len(self.facts.fn(vals[1][1])["params"]) == 1 and self.can_inline(vals[1][1]):
+                # `r.and_then(Self::f)` with a small local f: f's own outcomes become outcomes of this call (the payload-level model of the receiver)
+                v0_ = vals[0]
+                while isinstance(v0_, tuple) and v0_ and v0_[0] == "mut":
+                    v0_ = v0_[1]
+                vis_ = isinstance(v0_, tuple) and v0_ and v0_[0] == "call" and v0_[3] is None
+                if not (vis_ and v0_[1] in ("core::option::Option::None", "core::result::Result::Err")):
+                    some_ = vis_ and v0_[1] in ("core::option::Option::Some", "core::result::Result::Ok") and len(v0_[2]) == 1
+                    res_ = self.inline_call(e, s, vals[1][1], [e["recv"]], [v0_[2][0] if some_ else vals[0]])
+                    if res_:
+                        for s2, r_ in res_:
+                            self.ev(s2, "call", e, fn=vals[1][1], resolved=None, args=(v0_[2][0] if some_ else vals[0],), arg_nodes=[e["recv"]], recv=None, ret=r_, effects=(),
+                                    tys=[e["recv"].get("ty")], targs=None, pos_before={}, pos_after={}, argkeys=[frozenset()], direct=None, inlined=True)
+                            if some_ and fn.endswith("::map"):
+                                r_ = ("call", v0_[1], (r_,), None)
+                            outs.append((s2, r_))
+                        continue
+            if fn.endswith(("Iterator::find", "Iterator::find_map")) and len(vals) == 2 and isinstance(vals[1], tuple) and vals[1] and vals[1][0] == "clos":
                 src_ = vals[0]
                 while isinstance(src_, tuple) and src_ and src_[0] == "mut":
                     src_ = src_[1]
@@ -1549,6 +1586,29 @@ class FnAnalysis:
                             self.bind(s2, fnode["params"][0], yy, None)
                             for s3, t in self.eval(fnode["body"], s2):
                                 if s3.ctrl is not None:
+                                    continue
+                                if fn.endswith("::find_map"):
+                                    # the closure answers Some(v) (the search stops with v) or None (it goes on); its own decisions are on the path
+                                    tt = t
+                                    while isinstance(tt, tuple) and tt and tt[0] == "mut":
+                                        tt = tt[1]
+                                    vis = isinstance(tt, tuple) and tt and tt[0] == "call" and tt[3] is None
+                                    if vis and tt[1] == "core::option::Option::Some" and len(tt[2]) == 1:
+                                        s3.loops = s3.loops[:-1]
+                                        self.ev(s3, "loop", e, what="exit", lid=lid, how="break")
+                                        outs.append((s3, tt))
+                                    elif vis and tt[1] == "core::option::Option::None":
+                                        s3.loops = s3.loops[:-1]
+                                        self.ev(s3, "loop", e, what="exit", lid=lid, how="end")
+                                        outs.append((s3, none_t))
+                                    else:
+                                        sb = s3.fork()
+                                        sb.loops = sb.loops[:-1]
+                                        self.ev(sb, "loop", e, what="exit", lid=lid, how="end")
+                                        outs.append((sb, none_t))
+                                        s3.loops = s3.loops[:-1]
+                                        self.ev(s3, "loop", e, what="exit", lid=lid, how="break")
+                                        outs.append((s3, t))
                                     continue
                                 known = _const_truth(t)
                                 for outcome in ((known,) if known is not None else (False, True)):
@@ -1678,6 +1738,55 @@ class FnAnalysis:
             op, flavour = ARITH_METHODS[name]
             self.ev(st, "arith", e, op=op, l=vals[0], r=vals[1], lty=tys[0], rty=tys[1], flavour=flavour, ty=tys[0])
             return ("bin", op, vals[0], vals[1])
+        if fn in MAP_OR_LIKE and len(vals) == 3 and isinstance(vals[2], tuple) and vals[2] and vals[2][0] == "clos":
+            # `opt.map_or(default, f)` on a visible None / Some(x): the default, or f applied in place
+            v0_ = vals[0]
+            while isinstance(v0_, tuple) and v0_ and v0_[0] == "mut":
+                v0_ = v0_[1]
+            node = getattr(self, "clos_nodes", {}).get(vals[2][1])
+            if isinstance(v0_, tuple) and v0_ and v0_[0] == "call" and v0_[3] is None:
+                if v0_[1] in ("core::option::Option::None", "core::result::Result::Err"):
+                    st.events[:] = [x for x in st.events if x.clos != vals[2][1]]
+                    return vals[1]
+                if v0_[1] in ("core::option::Option::Some", "core::result::Result::Ok") and len(v0_[2]) == 1 and node is not None and len(node["params"]) == 1:
+                    sub = st.fork()
+                    n0 = len(sub.events)
+                    saved_paths = self.paths
+                    self.paths = []
+                    try:
+                        self.bind(sub, node["params"][0], v0_[2][0], arg_nodes[0] if arg_nodes else None)
+                        outs = [(s, v) for s, v in self.eval(node["body"], sub) if s.ctrl is None]
+                        clean = not self.paths
+                    finally:
+                        self.paths = saved_paths
+                    if clean and len(outs) == 1:
+                        s2, v2 = outs[0]
+                        st.env, st.under, st.pos, st.vers = s2.env, s2.under, s2.pos, s2.vers
+                        st.events[:] = [x for x in st.events if x.clos != vals[2][1]]
+                        st.events.extend(x for x in s2.events[n0:] if x.clos != vals[2][1])
+                        return v2
+        if fn in MAP_LIKE and len(vals) == 2 and isinstance(vals[1], tuple) and vals[1] and vals[1][0] == "call" and not vals[1][2] and vals[1][3] is None \
+                and self.facts.fn(vals[1][1]) is not None and len(self.facts.fn(vals[1][1])["params"]) == 1:
+            # a function item as the mapper: `r.and_then(Self::f)` is `f(payload)` on the success side
+            v0_ = vals[0]
+            while isinstance(v0_, tuple) and v0_ and v0_[0] == "mut":
+                v0_ = v0_[1]
+            if isinstance(v0_, tuple) and v0_ and v0_[0] == "call" and v0_[3] is None and v0_[1] in ("core::option::Option::None", "core::result::Result::Err"):
+                return v0_
+            visible_some = isinstance(v0_, tuple) and v0_ and v0_[0] == "call" and v0_[3] is None and v0_[1] in ("core::option::Option::Some", "core::result::Result::Ok") and len(v0_[2]) == 1
+            pay = v0_[2][0] if visible_some else vals[0]
+            g_ = vals[1][1]
+            r_ = None
+            if self.can_inline(g_):
+                res_ = self.inline_call(e, st, g_, arg_nodes[:1], [pay])
+                if res_ is not None and len(res_) == 1:
+                    s2, r_ = res_[0]
+                    st.env, st.under, st.pos, st.vers, st.events = s2.env, s2.under, s2.pos, s2.vers, s2.events
+            if r_ is None:
+                r_ = self.do_call(e, st, g_, None, arg_nodes[:1], [pay])
+            if visible_some and fn.endswith("::map"):
+                r_ = ("call", v0_[1], (r_,), None)
+            return r_
         if fn in MAP_LIKE and len(vals) == 2 and isinstance(vals[1], tuple) and vals[1] and vals[1][0] == "clos":
             node = getattr(self, "clos_nodes", {}).get(vals[1][1])
             v0_ = vals[0]
@@ -1846,6 +1955,9 @@ class FnAnalysis:
                 if rv is not None and rv in st.env and not _is_ref_ty(self.var_types.get(rv, "")):
                     st.vers += 1
                     st.env[rv] = ("mut", st.env[rv], st.vers)
+                    if fn in READ_FNS and isinstance(ret, tuple):
+                        # a buffer filled by a read: its contents (and, for read_to_end, its length) are what the stream delivered
+                        self.read_filled[st.env[rv]] = ret
         self.ev(st, "call", e, fn=fn, resolved=e.get("resolved"), args=tuple(vals), arg_nodes=arg_nodes, recv=recv_node,
                 ret=ret, effects=tuple(effects), tys=tys, targs=e.get("targs"), pos_before=pos_before, argkeys=keysets,
                 pos_after={k: self.getpos(st, k) for ks in keysets for k in ks}, direct=direct)
